@@ -1,6 +1,6 @@
 (* C20 proofs: Shakespeare tokeniser, CIFAR-100 crops / standardisation, EMNIST domain
    ids, label-id agreement between the packaged datasets and models. *)
-From Coq Require Import ZArith QArith Qabs List Bool Lia Lra Arith.
+From Coq Require Import ZArith QArith Qabs List Bool Lia Lqa Arith.
 From FV Require Import Common.ListX Common.PySem Common.Chunk Model.C20_Model.
 Import ListNotations.
 Local Open Scope Z_scope.
